@@ -179,6 +179,12 @@ FIXTURES = [
 ]
 
 
+PREFIXED_FIXTURES = [   # for a schema loaded as "tl:<version>"
+    "tl:red", "tl:Red", "Tl:red", "TL:Red", "tl:RED", "tl:label/x", "tl:Label/x", "tl:item/xq", "tl:Item/object", "tl:Item/Object",
+    "tl:", "tl:/Red", "tl:Red, Red", "tl:Red, tl:red", "(tl:Red, tl:blue)", "tl:Label/#", "tl:Def/x", "tl:property/Label/x", "tl:Property/label/x",
+    "tl:informational-property/Label/x", "tl:sensory-event", "tl:Sensory-event", "tl:x", "t l:Red", "tl :Red", "tl:tl:Red", "Red/tl:x", "tl:Red/tl",
+]
+
 # ------------------------------------------------------------------------------------------ vocabulary
 
 def version_tuple(s):
@@ -195,7 +201,9 @@ class Vocab:
     """Everything the model needs about one schema, from our own XML reading."""
 
     def __init__(self, name, plural):
-        self.name = name
+        self.name = name                     # "8.3.0" or, loaded under a namespace, "tl:8.3.0"
+        self.ns, _, name = name.rpartition(":")
+        self.ns = self.ns + ":" if self.ns else ""
         path = schema_xml.bundled()[name]
         raw = self.raw = schema_xml.read(path)
         self.long = [t["long"] for t in raw["tags"]]
@@ -382,7 +390,7 @@ class Gen:
             s = s.upper()
         elif r < 0.35:
             s = "".join(c.swapcase() if self.rng.random() < 0.3 else c for c in s)
-        return s
+        return self.v.ns + s
 
     def new_term(self):
         while True:
@@ -555,7 +563,7 @@ class Gen:
     def inject(self, kind, tree, ph):
         rng, v = self.rng, self.v
         if kind == "unknown_tag":
-            self.put(tree, self.new_term())
+            self.put(tree, v.ns + self.new_term())
         elif kind == "forbidden_extension":
             if not self.noext:
                 return None
@@ -861,7 +869,7 @@ def run_cases(ctx, v, cases):
     unknown = [c for c in chars if c.casefold() != c or c.isdigit()]
     if unknown:
         raise RuntimeError(f"alphabet holds characters outside the model's assumptions: {unknown!r}")
-    base = dict(v.payload(chars), **detect_variant(), op="c01.run", ns="")
+    base = dict(v.payload(chars), **detect_variant(), op="c01.run", ns=v.ns)
     out = []
     for k in range(0, len(cases), 20000):
         req = dict(base, cases=[{"text": t, "ph": ph} for t, ph in cases[k:k + 20000]])
@@ -907,7 +915,7 @@ def run_schema(ctx, name, n_grammar, n_fuzz, sweep):
     rng = ctx.rng
     v = Vocab(name, pluralize.plural)
     schema = load_schema_version(name)
-    v.defs = defs_for(v)
+    v.defs = defs_for(v) if not v.ns else []       # the harness's definitions are spelled without a namespace
     dd = DefinitionDict(defs_string(v.defs), schema) if v.defs else None
     if dd is not None and (dd.issues or len(dd.defs) != len(v.defs)):
         raise RuntimeError(f"the harness's own definitions are not accepted: {dd.issues}")
@@ -942,14 +950,14 @@ def run_schema(ctx, name, n_grammar, n_fuzz, sweep):
                 if v.attrs[i]["rc"]:
                     continue
             for k in range(1, len(comps) + 1):
-                cases.append(("sweep", "conforming", "/".join(comps[-k:]) + tail, False, dd is not None))
+                cases.append(("sweep", "conforming", v.ns + "/".join(comps[-k:]) + tail, False, dd is not None))
     for text in definition_copy_cases(g, max(8, n_grammar // 100)):
         cases.append(("grammar", "definition_copy_placeholder", text, False, dd is not None))
     vc_expect = {}
     for text, i, exp, value in value_class_cases(g):
         vc_expect[text] = (i, exp, value)
         cases.append(("grammar", "valueclass", text, False, dd is not None))
-    for s in FIXTURES + fuzz_strings(rng, g, n_fuzz):
+    for s in FIXTURES + (PREFIXED_FIXTURES if v.ns else []) + fuzz_strings(rng, g, n_fuzz):
         cases.append(("fuzz", "fuzz", s, rng.random() < 0.5, dd is not None))
     answers = run_cases(ctx, v, [(c[2], c[3]) for c in cases])
     for n_done, ((stream, kind, text, ph, needs_dict), m) in enumerate(zip(cases, answers)):
@@ -1017,9 +1025,12 @@ def run(ctx):
         run_schema(ctx, "8.3.0", 3000, 4700, False)
         run_schema(ctx, "8.2.0", 500, 1000, False)
         run_schema(ctx, "score_1.1.0", 250, 400, False)
+        run_schema(ctx, "tl:8.3.0", 300, 400, False)           # the same vocabulary loaded under a namespace
     else:
         for n in ALL_SCHEMAS:
             run_schema(ctx, n, 6000 if n == "8.3.0" else 2000, 120000 if n == "8.3.0" else 18000, True)
+        run_schema(ctx, "tl:8.3.0", 2000, 10000, True)
+        run_schema(ctx, "sc:score_2.0.0", 1000, 5000, False)
     kinds = sorted(set(SPEC))
     missing = [k for k in kinds if ctx.hist.get("inj:" + k, 0) == 0]
     ctx.extra["injection_kinds_exercised"] = {k: ctx.hist.get("inj:" + k, 0) for k in kinds}
